@@ -192,6 +192,10 @@ func (w *requestWriter) encodeHeaders(req *http.Request, addGzipHeader bool, tra
 			}
 
 			for _, v := range vv {
+				if strings.EqualFold(k, "te") && v != "trailers" {
+					// RFC 9114, section 4.2: TE must not carry anything but "trailers"
+					continue
+				}
 				f(k, v)
 			}
 		}
